@@ -1,4 +1,4 @@
-(* Correspondence check for C14 (the writer cases are described further down): every strict prefix of a serialization makes load (and skip_option) return
+(* Correspondence check for C14 (the writer cases and the serialize_to cases are described further down): every strict prefix of a serialization makes load (and skip_option) return
    the error the model predicts -- never a value, never a panic -- and every write budget below the size makes
    serialize return the sink's error after exactly the bytes that fit. *)
 From Coq Require Import NArith List Bool.
@@ -13,6 +13,13 @@ Open Scope N_scope.
 
 (* a push of the raw writer: one bit, or the low [w] bits of [v] *)
 Inductive wcop := WB (b : bool) | WI (v w : N).
+
+(* the value handed to serialize_to: a value of the closed type universe, WMCore / WaveletMatrix::from(V), or a
+   SparseVector (low width w the crate chose, universe, multiset?, values) *)
+Inductive fval :=
+| FT (t : ty) (r : recipe)
+| FW (t : wty) (V : list N)
+| FS (w len : N) (multi : bool) (vals : list N).
 
 Inductive case :=
 (* outcomes: run-length encoded outcome codes of T::load on the first k bytes, k = 0 .. size-1 *)
@@ -40,7 +47,21 @@ Inductive case :=
 | CWRaw (dbg : bool) (sk L bl : N) (ops : list wcop) (mem : list N)
         (created : N) (panic : option (N * N)) (close : N) (open : bool) (len : N) (file : list N)
 | CWInt (dbg : bool) (sk L width items : N) (xs : list N) (mem : list N)
-        (created : N) (panic : option (N * N)) (close : N) (open : bool) (len : N) (file : list N).
+        (created : N) (panic : option (N * N)) (close : N) (open : bool) (len : N) (file : list N)
+(* The real serialize::serialize_to(&value, file) on a file that cannot take everything, then serialize::load_from
+   of whatever that left behind. v: the recipe of the value; elems ++ tail: Serialize::serialize of the value into
+   memory; size_by: its size_in_bytes().
+   One run = (sk, L, rc, flen, class, load):
+     sk    = 0: a regular file under RLIMIT_FSIZE = L bytes (soft limit, SIGXFSZ ignored); 1: /dev/full (L = 0);
+     rc    = 0: serialize_to returned Ok(()); otherwise the errno of the error it returned (1000: an error without
+             errno, 2000 + class: it panicked, 3000: the forked child did not report);
+     flen  = length in bytes of the file afterwards (limit lifted; 0 for /dev/full);
+     class = 0: the file is exactly the in-memory serialization, 1: it is a STRICT prefix of it, 2: anything else;
+     load  = outcome of load_from::<T>(file) afterwards: 0 = Ok and equal to the value (and its sampled answers
+             agree), 5 = Ok with something else, 1..4 an I/O error (codes of SerCommon.v), 10 + class a panic,
+             99 = not called (/dev/full, or the file does not exist). *)
+| CFile (path : N) (dbg : bool) (v : fval) (elems tail : list N) (size_by : N)
+        (runs : list (N * N * N * N * N * N)).
 
 Definition LIMIT : N := 320.
 Definition STRIDE : N := 13.
@@ -112,6 +133,70 @@ Definition wspec (sk L : N) (mem enc : list N) (o : wobs) : bool :=
       nlist_eqb mem enc &&
       (if silent then nlist_eqb file enc && negb open && fits
        else negb fits && ((created =? 0) || ((close =? NOT_CALLED) && negb open)))
+  end.
+
+(* ---- serialize_to on a failing file: model side. The file behind serialize_to is the sink of Spec/Stream.v with a
+   budget of L bytes (0 for /dev/full): serialize is a sequence of write_all calls chained with `?` (write_seq), and
+   serialize_to passes its error through unchanged (Props/C14.v: C14_sink_budget, C14_sink_fits; the file system
+   is read as in Model/WriterFail.v: what fits below the limit is written, then EFBIG; /dev/full takes nothing,
+   ENOSPC). The file left behind is what the sink received; load_from of it is the model's loader on those bytes
+   (Props/C14_file.v: C14_failed_write_leaves_unloadable_file). ---- *)
+
+(* the model's encoding of the value and its loader as an outcome code *)
+Definition fmodel (sp : selpath) (m : mode) (v : fval) : option (list byte * (list byte -> N)) :=
+  match v with
+  | FT t r =>
+      match build sp m t r with
+      | Some x => Some (c_enc (codec_of m t) x, fun s => io_code (c_dec (codec_of m t) s))
+      | None => None
+      end
+  | FW t V =>
+      match SerWM.wbuild sp m t V with
+      | Some x => Some (SerWM.wenc x, fun s => fst (SerWM.wdec x s))
+      | None => None
+      end
+  | FS w len multi vals =>
+      match SerSparse.build_sv sp m w len multi vals with
+      | Some x => let c := SerSparse.sparse_codec sp m in Some (c_enc c x, fun s => io_code (c_dec c s))
+      | None => None
+      end
+  end.
+
+(* where the model's loader is evaluated on the file left behind: always for serializations up to 1 KiB; up to
+   8 KiB when the file is shorter than 3 elements, or every 13th length, or within 3 elements of the end;
+   beyond 8 KiB only on files shorter than 3 elements. Elsewhere the model side only asks for an I/O error. *)
+Definition fdec_here (total flen : N) : bool :=
+  (total <=? 1024) || (flen <? 24) || ((total <=? 8192) && ((flen mod 13 =? 0) || (total <? flen + 24))).
+
+Definition NO_LOAD : N := 99.
+
+Definition frun_model (bytes : list byte) (total : N) (dec : list byte -> N) (r : N * N * N * N * N * N) : bool :=
+  match r with
+  | (sk, L, rc, flen, class, load) =>
+      let room := if sk =? 0 then L else 0 in
+      match write_seq [bytes] (mksink [] room OtherErr) with
+      | (_, IoOk _) => (sk =? 0) && (rc =? 0) && (flen =? total) && (class =? 0) && (load =? 0)
+      | (w, IoErr _) =>
+          (rc =? errno (fs_err (sink_of sk L))) && (class =? 1)
+          && (if sk =? 0 then
+                (flen =? lenN (sk_out w))
+                && (if fdec_here total flen then load =? dec (sk_out w) else code_is_err load)
+              else (flen =? 0) && (load =? NO_LOAD))
+      | (_, IoPanic _) => false
+      end
+  end.
+
+(* ---- serialize_to on a failing file: spec side. The property on the observation alone: Ok(()) is returned exactly
+   when the complete serialization fits, and then the file IS the serialization (and loads back); otherwise an error
+   (not a panic) is returned, the file holds a strict prefix of the serialization that lies within the limit, and
+   load_from of that file is an I/O error - never a structure, never a panic. ---- *)
+Definition frun_spec (size : N) (r : N * N * N * N * N * N) : bool :=
+  match r with
+  | (sk, L, rc, flen, class, load) =>
+      let fits := (sk =? 0) && (size <=? L) in
+      if rc =? 0 then fits && (class =? 0) && (flen =? size) && (load =? 0)
+      else negb fits && (rc <? 2000) && (class =? 1) && (flen <? size)
+           && (if sk =? 0 then (flen <=? L) && (1 <=? load) && (load <=? 4) else (flen =? 0) && (load =? 99))
   end.
 
 Definition check (c : case) : N :=
@@ -195,6 +280,17 @@ Definition check (c : case) : N :=
       let s_ok := (1 <=? width) && (width <=? 64) &&
                   wspec sk L mem (lenN xs :: width :: enc_bits (flat_map (fun x => vbits x width) xs)) o in
       code m_ok s_ok
+  | CFile path dbg v elems tail size_by runs =>
+      let bytes := stream elems tail in
+      let total := lenN bytes in
+      let m_ok :=
+        match fmodel (sp_of path) (mode_of dbg) v with
+        | Some (enc, dec) => nlist_eqb enc bytes && forallb (frun_model bytes total dec) runs
+        | None => false
+        end in
+      let size := 8 * lenN elems + lenN tail in
+      let s_ok := (size_by =? size) && (1 <=? lenN runs) && forallb (frun_spec size) runs in
+      code m_ok s_ok
   end.
 
 Definition explain (c : case) :=
@@ -205,5 +301,15 @@ Definition explain (c : case) :=
   | CSkipTrunc path dbg elems outcomes =>
       let bytes := stream elems [] in
       map (fun k => io_code (skip_option (mode_of dbg) (firstn k bytes))) (seq 0 (length bytes))
+  | CFile path dbg v elems tail size_by runs =>
+      (* per run: the limit, the model's result (0 / errno) and file length, 1 if the run contradicts the spec side *)
+      let bytes := stream elems tail in
+      flat_map (fun r => match r with
+                         | (sk, L, rc, flen, class, load) =>
+                             let room := if sk =? 0 then L else 0 in
+                             let '(w, res) := write_seq [bytes] (mksink [] room OtherErr) in
+                             [L; match res with IoOk _ => 0 | _ => errno (fs_err (sink_of sk L)) end; lenN (sk_out w);
+                              if frun_spec (lenN bytes) r then 0 else 1]
+                         end) runs
   | _ => []
   end.
